@@ -93,8 +93,35 @@ func runC06(c *core.Ctx) {
 				cm := k.Common()
 				return cm.IsInvoke() && cm.Method.Name() == "Close"
 			}
-			rClose := core.ReachFrom(core.After(fwCall), isClose, cut)
-			rErr := core.ReachFrom(core.After(fwCall), isSendErrorCall, cut)
+			// the refusal sequence may live in a private helper (s.reject(msg, context, stream, err)):
+			// a call of a helper every path of which performs the step counts as the step
+			through := func(step func(ssa.Instruction) bool) func(ssa.Instruction) bool {
+				return func(x ssa.Instruction) bool {
+					if step(x) {
+						return true
+					}
+					k, ok := x.(*ssa.Call)
+					if !ok {
+						return false
+					}
+					h := k.Call.StaticCallee()
+					if h == nil || !isPrivateHelper(c, h) || len(h.Blocks) == 0 {
+						return false
+					}
+					rets := core.Returns(h)
+					if len(rets) == 0 {
+						return false
+					}
+					for _, r := range rets {
+						if !core.MustPassBefore(h, r, step) {
+							return false
+						}
+					}
+					return true
+				}
+			}
+			rClose := core.ReachFrom(core.After(fwCall), through(isClose), cut)
+			rErr := core.ReachFrom(core.After(fwCall), through(isSendErrorCall), cut)
 			bad := ""
 			for _, ret := range core.Returns(fn) {
 				if rClose.Has(ret) {
